@@ -16,6 +16,7 @@ Proof.
           | apply inv_Deliver_LT | apply inv_Deliver_ET | apply inv_Deliver_ETOS
           | apply inv_HandleOut_LT | apply inv_HandleOut_ET | apply inv_HandleOut_ETOS
           | apply inv_ConnDone_LT | apply inv_ConnDone_ET | apply inv_ConnDone_ETOS
+          | apply inv_ReadDispatch_LT | apply inv_ReadDispatch_ET | apply inv_ReadDispatch_ETOS
           | apply inv_Rearm_LT | apply inv_Rearm_ET | apply inv_Rearm_ETOS
           | apply inv_Close ].
 Qed.
@@ -34,20 +35,20 @@ Theorem inv_reachable md r0 l : Inv md (run md r0 l).
 Proof. apply fold_inv. apply inv_init. Qed.
 
 (* the poller holds no event of the fd and no ResetPollerEvent is owed *)
-Definition quiescent (s : st) : Prop := pw s = WNone /\ owed s = 0.
+Definition quiescent (s : st) : Prop := pw s = WNone /\ owed s = 0 /\ prd s = false.
 
 Theorem no_lost_wakeup md s :
   Inv md s -> closed s = false -> reg s = true -> quiescent s -> 0 < q s -> 0 < room s ->
   deliverable_out md s false = true.
 Proof.
-  intros [Hc | (Hc & HA & HB & H1 & H5 & H2 & H3 & H4 & H6 & H8 & H7)] Hcl Hr [Hp Ho] Hq Hroom; [congruence|].
+  intros [Hc | (Hc & HA & HB & H1 & H5 & H2 & H3 & H4 & H6 & H8 & H7 & H9)] Hcl Hr (Hp & Ho & Hprd) Hq Hroom; [congruence|].
   destruct (H2 Hr Hq) as [Hm Hmd]. specialize (H3 Hr).
   unfold deliverable_out, is_et, is_os. rewrite Hr, Hm.
   replace (0 <? room s) with true by (symmetry; apply Nat.ltb_lt; lia). cbn [andb].
   destruct md; auto.
   - destruct Hmd as [_ He]. destruct (He Hroom) as [E|E]; [rewrite E; reflexivity | congruence].
   - destruct Hmd as [_ He]. destruct (He Hroom) as [E|E]; [rewrite E | congruence]. cbn.
-    destruct H3 as [E'|[E'|E']]; [exact E' | lia | congruence].
+    destruct H3 as [E'|[E'|[E'|E']]]; [exact E' | lia | congruence | congruence].
 Qed.
 
 (* ---- what the poller's steps do to the backlog and to the bytes handed to the kernel ---- *)
@@ -65,7 +66,7 @@ Qed.
 
 Lemma release_qs md s :
   q (release md s) = q s /\ sent (release md s) = sent s /\ room (release md s) = room s /\ closed (release md s) = closed s.
-Proof. unfold release, set_pw, set_owed. destruct (is_os md); simp_proj; auto. Qed.
+Proof. unfold release, set_pw, set_owed. destruct (is_os md && negb (prd s)); simp_proj; auto. Qed.
 
 Lemma flush_qs md s :
   closed s = false ->
@@ -103,13 +104,13 @@ Proof.
 Qed.
 
 Lemma handle_out_qs md s :
-  closed s = false -> dial s = false -> pw s = WNone -> deliverable_out md s false = true ->
+  closed s = false -> dial s = false -> pw s = WNone -> prd s = false -> deliverable_out md s false = true ->
   q (handle_out md s) = q s - Nat.min (q s) (room s) /\ sent (handle_out md s) = sent s + Nat.min (q s) (room s).
 Proof.
-  intros Hcl Hd Hp Hdel.
+  intros Hcl Hd Hp Hprd Hdel.
   assert (Hreg : reg s = true) by (unfold deliverable_out in Hdel; destruct (reg s); auto).
-  assert (Harm : (is_os md && negb (armed s)) = false).
-  { unfold deliverable_out in Hdel. destruct (is_os md); auto. repeat (apply andb_true_iff in Hdel as [Hdel ?]).
+  assert (Harm : (prd s || (is_os md && negb (armed s))) = false).
+  { rewrite Hprd. cbn [orb]. unfold deliverable_out in Hdel. destruct (is_os md); auto. repeat (apply andb_true_iff in Hdel as [Hdel ?]).
     match goal with H : armed s = true |- _ => rewrite H end. reflexivity. }
   unfold handle_out.
   remember (step md s (Deliver false false)) as s1 eqn:E1.
@@ -130,8 +131,8 @@ Theorem progress md s :
   closed s = false -> dial s = false -> quiescent s -> deliverable_out md s false = true -> 0 < q s ->
   q (handle_out md s) < q s /\ q (handle_out md s) + sent (handle_out md s) = q s + sent s.
 Proof.
-  intros Hcl Hd [Hp Ho] Hdel Hq.
-  destruct (handle_out_qs md s Hcl Hd Hp Hdel) as (A & B). rewrite A, B.
+  intros Hcl Hd (Hp & Ho & Hprd) Hdel Hq.
+  destruct (handle_out_qs md s Hcl Hd Hp Hprd Hdel) as (A & B). rewrite A, B.
   assert (Hroom : 0 < room s).
   { unfold deliverable_out in Hdel. repeat (apply andb_true_iff in Hdel as [Hdel ?]).
     match goal with H : (0 <? room s) = true |- _ => apply Nat.ltb_lt in H; exact H end. }
